@@ -1,6 +1,9 @@
-(** C04: resultant = Sylvester determinant (statements only; proofs in Refine/ResProofs*.v). *)
+(** C04: resultant = Sylvester determinant (statements only; proofs in Refine/ResProofs*.v).
+    [resultant m f g : bool * outcome Z] pairs the outcome with the model's exactness flag
+    (true iff every truncating BigInt division of the run had remainder zero). *)
 From RNT.Model Require Import Base Poly Resultant.
-From RNT.Refine Require Import ResProofs.
+From RNT.Refine Require Import ResProofs ResProofs2 ResProofs3.
+From Coq Require Import QArith Qcanon.
 Open Scope Z_scope.
 
 (** [P] a zero argument gives 0, flag true, in either mode. *)
@@ -8,3 +11,164 @@ Theorem resultant_zero_l : forall m g, resultant m [] g = (true, Done 0).
 Proof. exact ResProofs.resultant_zero_l. Qed.
 Theorem resultant_zero_r : forall m f, resultant m f [] = (true, Done 0).
 Proof. exact ResProofs.resultant_zero_r. Qed.
+Theorem resultant_rational_zero_l : forall m g, resultant_rational m [] g = Done (Q2Qc 0).
+Proof. exact ResProofs.resultant_rational_zero_l. Qed.
+Theorem resultant_rational_zero_r : forall m f, resultant_rational m f [] = Done (Q2Qc 0).
+Proof. exact ResProofs.resultant_rational_zero_r. Qed.
+
+(** [P] two constants give 1 without panic, in mode Checked as well (defect D2 is repaired in /repo). *)
+Theorem resultant_consts : forall m c d, resultant m [c] [d] = (true, Done 1).
+Proof. exact ResProofs.resultant_consts. Qed.
+Theorem resultant_rational_consts : forall m c d, resultant_rational m [c] [d] = Done (Q2Qc 1).
+Proof. exact ResProofs.resultant_rational_consts. Qed.
+Example consts_checked : resultant Checked [3] [5] = (true, Done 1). Proof. reflexivity. Qed.
+
+(** [P] a polynomial of degree n >= 1 against a constant c, in either order: c^n, flag true, no panic. *)
+Theorem resultant_const_r : forall m f c,
+  (2 <= length f)%nat -> len_ok f = true -> resultant m f [c] = (true, Done (c ^ pdeg f)).
+Proof. exact ResProofs.resultant_const_r. Qed.
+Theorem resultant_const_l : forall m c g,
+  (2 <= length g)%nat -> len_ok g = true -> resultant m [c] g = (true, Done (c ^ pdeg g)).
+Proof. exact ResProofs.resultant_const_l. Qed.
+Theorem resultant_rational_const_r : forall m f c,
+  f <> [] -> resultant_rational m f [c] = Done (qcpow c (pdeg f)).
+Proof. exact ResProofs.resultant_rational_const_r. Qed.
+Example const_r_ex : resultant Checked [1; 2; 3] [-2] = (true, Done 4) /\ len_ok [1; 2; 3] = true.
+Proof. split; reflexivity. Qed.
+Example const_l_ex : resultant Checked [-2] [1; 2; 3; 4] = (true, Done (-8)). Proof. reflexivity. Qed.
+
+(** [P] the fuel supplied by the entry points suffices for every pair of coefficient lists. *)
+Theorem resultant_no_outoffuel : forall m f g, snd (resultant m f g) <> OutOfFuel.
+Proof. exact ResProofs.resultant_no_outoffuel. Qed.
+Theorem resultant_rational_no_outoffuel : forall m a b, resultant_rational m a b <> OutOfFuel.
+Proof. exact ResProofs.resultant_rational_no_outoffuel. Qed.
+
+(** [P] on canonical inputs (no trailing zero, as [Polynomial::from_raw] builds them; lengths fit a
+    usize) [resultant_rational] returns a value: no assert failure, no usize underflow, in either mode. *)
+Theorem resultant_rational_total : forall m a b,
+  qcanonb a = true -> qcanonb b = true -> len_ok a = true -> len_ok b = true ->
+  exists v, resultant_rational m a b = Done v.
+Proof. exact ResProofs3.resultant_rational_total. Qed.
+Example rational_total_ex :
+  let a := [Q2Qc (1 # 2); Q2Qc 3; Q2Qc (5 # 7)] in let b := [Q2Qc 2; Q2Qc (-1 # 3)] in
+  qcanonb a = true /\ qcanonb b = true /\ len_ok a = true /\ len_ok b = true.
+Proof. repeat split; reflexivity. Qed.
+
+(** [C] for canonical inputs: if the exactness flag of the run is true, the run returned a value
+    (no division by zero, no failed debug assertion, no usize underflow, enough fuel).
+    Full statement (not proved, sub-resultant structure theorem): the flag is always true, hence
+    [resultant] never panics on canonical inputs. *)
+Theorem resultant_flag_no_panic_partial : forall m f g o,
+  canonb f = true -> canonb g = true -> len_ok f = true -> len_ok g = true ->
+  resultant m f g = (true, o) -> exists v, o = Done v.
+Proof. exact ResProofs2.resultant_flag_no_panic. Qed.
+Example flag_ex :
+  let f := [5; 0; 2; 0; 6; 9] in let g := [6; 6; 6; 1; 7] in
+  canonb f = true /\ canonb g = true /\ resultant Checked f g = (true, Done 335159672).
+Proof. repeat split; vm_compute; reflexivity. Qed.
+Example flag_ex2 : resultant Checked [2; 5; 2] [2; 0; 1] = (true, Done 54). Proof. vm_compute. reflexivity. Qed.
+
+(** ** Specification level (MathComp [resultant p q := \det (Sylvester_mx p q)], mxpoly.v)
+
+    MathComp lays the Sylvester matrix out with increasing degrees; reversing rows and columns shows
+    that the classical (highest degree first) Sylvester determinant Res(f, g) of the property text is
+    [resultant g f] = [\det (Sylvester_mx g f)]. The next theorem is the witness of this convention. *)
+From mathcomp Require Import all_ssreflect ssralg poly polydiv matrix mxpoly.
+From mathcomp Require Import ssrZ.
+From RNT.Refine Require Import QcRing PolyRefine ResSylvester ResEuclid ResQ ResPRS ResInt.
+Import GRing.Theory.
+Local Open Scope ring_scope.
+
+Theorem resultant_linear_convention : forall (R : comRingType) (a b : R),
+  mxpoly.resultant ('X - a%:P) ('X - b%:P) = (b - a)%R.
+Proof. exact ResEuclid.resultant_linear_convention. Qed.
+
+(** [P] [resultant_rational_spec]: for all canonical non-zero inputs, in either mode, the value returned
+    by the model of [resultant_rational] is the determinant of the Sylvester matrix. *)
+Theorem resultant_rational_spec : forall m (a b : seq Qc) v,
+  qcanonb a = true -> qcanonb b = true -> len_ok a = true -> len_ok b = true ->
+  a <> [::] -> b <> [::] ->
+  resultant_rational m a b = Done v ->
+  v = (\det (Sylvester_mx (Poly b) (Poly a)))%R.
+Proof. exact ResQ.resultant_rational_spec. Qed.
+Example rational_spec_ex :
+  let a := [Q2Qc (1 # 2); Q2Qc 3; Q2Qc (5 # 7)] in let b := [Q2Qc 2; Q2Qc (-1 # 3)] in
+  exists v, resultant_rational Checked a b = Done v /\ Qeq_bool v (Q2Qc (619 # 126)) = true.
+Proof. eexists; split; vm_compute; reflexivity. Qed.
+
+(** [P] [res_recurrence]: the Euclid recurrence of the resultant over a field, proved from the Sylvester
+    matrix (classical form: Res(A,B) = (-1)^(dA dB) lc(B)^(dA - dR) Res(B, R), R = A mod B). *)
+Theorem res_recurrence : forall (F : fieldType) (A B : {poly F}),
+  A != 0 -> B != 0 -> A %% B != 0 ->
+  mxpoly.resultant B A =
+  ((-1) ^+ ((size A).-1 * (size B).-1) * lead_coef B ^+ ((size A).-1 - (size (A %% B)).-1)
+   * mxpoly.resultant (A %% B) B)%R.
+Proof. exact ResEuclid.res_recurrence. Qed.
+
+(** [P] the reduction steps hold over any commutative ring, for any decomposition q = Q p + r. *)
+Theorem resultant_redr : forall (R : comRingType) (p q Q r : {poly R}), q = (Q * p + r)%R ->
+  (((size p).-1 + size Q).-1 <= (size q).-1)%N -> ((size r).-1 <= (size q).-1)%N ->
+  mxpoly.resultant p q =
+  (((-1) ^+ (size p).-1 * lead_coef p) ^+ ((size q).-1 - (size r).-1) * mxpoly.resultant p r)%R.
+Proof. exact ResSylvester.resultant_redr. Qed.
+Theorem resultant_redl : forall (R : comRingType) (p q Q r : {poly R}), p = (Q * q + r)%R ->
+  (((size q).-1 + size Q).-1 <= (size p).-1)%N -> ((size r).-1 <= (size p).-1)%N ->
+  mxpoly.resultant p q = (lead_coef q ^+ ((size p).-1 - (size r).-1) * mxpoly.resultant r q)%R.
+Proof. exact ResSylvester.resultant_redl. Qed.
+
+(** [P] symmetry over a field, value against constants, scaling law (spec level). *)
+Theorem resultant_swap : forall (F : fieldType) (A B : {poly F}), A != 0 -> B != 0 ->
+  mxpoly.resultant A B = ((-1) ^+ ((size A).-1 * (size B).-1) * mxpoly.resultant B A)%R.
+Proof. exact ResEuclid.resultant_swap. Qed.
+Theorem resultant_constr : forall (R : comRingType) (p : {poly R}) (c : R),
+  mxpoly.resultant p c%:P = (c ^+ (size p).-1)%R.
+Proof. exact ResEuclid.resultant_constr. Qed.
+Theorem resultant_constl : forall (R : comRingType) (c : R) (q : {poly R}),
+  mxpoly.resultant c%:P q = (c ^+ (size q).-1)%R.
+Proof. exact ResEuclid.resultant_constl. Qed.
+Theorem resultant_scale : forall (R : idomainType) (s t : R) (p q : {poly R}), s != 0 -> t != 0 ->
+  mxpoly.resultant (s *: p) (t *: q) = (s ^+ (size q).-1 * t ^+ (size p).-1 * mxpoly.resultant p q)%R.
+Proof. exact ResEuclid.resultant_scale. Qed.
+
+(** [C] [resultant_int_partial]: the integer sub-resultant routine. For canonical non-zero inputs, if the
+    run returns [v] with the model's exactness flag true, then [v] is the Sylvester determinant
+    (proved through the pseudo-division step identity [prs_step] and Cohen's bookkeeping invariant
+    Res(f0,g0) * b^(deg f - 1) * a^(deg g) = s * Res(f, g)).
+    Full statement (not proved): the flag is always true (sub-resultant structure theorem), so that
+    [resultant f g = Done (det Sylvester)] for all canonical non-zero inputs. *)
+Theorem resultant_int_partial : forall m (f g : seq Z) v,
+  canonb f = true -> canonb g = true -> len_ok f = true -> len_ok g = true ->
+  f <> [::] -> g <> [::] ->
+  Resultant.resultant m f g = (true, Done v) ->
+  v = \det (Sylvester_mx (Poly g) (Poly f)).
+Proof. exact ResInt.resultant_int_partial. Qed.
+Example int_partial_ex :
+  let f := [:: 5; 0; 2; 0; 6; 9]%Z in let g := [:: 6; 6; 6; 1; 7]%Z in
+  canonb f = true /\ canonb g = true /\ len_ok f = true /\ len_ok g = true /\
+  Resultant.resultant Checked f g = (true, Done 335159672%Z).
+Proof. repeat split; vm_compute; reflexivity. Qed.
+
+(** [P] one pseudo-division step of the sub-resultant sequence at the level of determinants, and
+    symmetry of the resultant over an integral domain. *)
+Theorem prs_step : forall (R : idomainType) (A B Q P H : {poly R}) (phi : R),
+  A != 0 -> B != 0 -> (size B <= size A)%N ->
+  let c := lead_coef B in let k := ((size A).-1 - (size B).-1).+1 in
+  c ^+ k *: A = Q * B + P -> (size P < size B)%N -> P = phi *: H -> phi != 0 -> H != 0 ->
+  (c ^+ k) ^+ (size B).-1 * mxpoly.resultant B A =
+  ((-1) ^+ (size B).-1 * c) ^+ ((size A).-1 - (size H).-1) * phi ^+ (size B).-1 *
+  ((-1) ^+ ((size B).-1 * (size H).-1) * mxpoly.resultant H B).
+Proof. exact ResPRS.prs_step. Qed.
+Theorem resultant_swap_idomain : forall (R : idomainType) (A B : {poly R}), A != 0 -> B != 0 ->
+  mxpoly.resultant A B = (-1) ^+ ((size A).-1 * (size B).-1) * mxpoly.resultant B A.
+Proof. exact ResPRS.resultant_swap_idomain. Qed.
+
+(** [C] "the rational-coefficient variant returns the same value on the same inputs": for canonical non-zero
+    integer inputs, whenever the integer run returns [v] with exactness flag true, the rational routine
+    returns (the image of) [v] - both are the Sylvester determinant. [Qc_ofZ z = Q2Qc (inject_Z z)]. *)
+From RNT.Refine Require Import ResAgree.
+Theorem resultant_rational_agrees_partial : forall m (f g : seq Z) v,
+  canonb f = true -> canonb g = true -> len_ok f = true -> len_ok g = true ->
+  f <> [::] -> g <> [::] ->
+  Resultant.resultant m f g = (true, Done v) ->
+  resultant_rational m (List.map Qc_ofZ f) (List.map Qc_ofZ g) = Done (Qc_ofZ v).
+Proof. exact ResAgree.resultant_rational_agrees_partial. Qed.
